@@ -27,7 +27,8 @@ META = {
             "conformant fields; in ~Parameter the separating colon is set off by blanks when the value is a time or the description has colons"),
     "C05": ("expected-reading oracle over generated section permutations, Hypothesis + title grid",
             "FileSpecs with permuted sections, ~A anywhere, title spellings in both cases, custom sections, empty sections and "
-            "steering names placed in non-steering sections are read and compared item by item / cell by cell with the expected reading",
+            "steering names placed in non-steering sections (and in the OTHER steering section) are read and compared item by item / cell by cell with the expected reading, "
+            "also when the LASFile object has read another file before",
             "titles without '_'; custom titles start with a letter outside VWCPOA; one section of each standard kind"),
     "C06": ("iff-oracle over generated NULL spellings and placements, Hypothesis + spelling grid",
             "both directions of 'NaN iff non-index numeric sample equal to NULL' over NULL values/spellings, near-NULL neighbours, "
@@ -35,7 +36,8 @@ META = {
             "plain decimal tokens; text cells without blanks"),
     "C07": ("cell-coordinate oracle, exhaustive (d,c,r) grids + Hypothesis",
             "every cell carries its own coordinates; (declared, columns, rows) grids for both engines and all wrapping widths are "
-            "enumerated exhaustively, larger shapes generated; curves must be rectangular, in order, surplus columns appended, missing ones NaN",
+            "enumerated exhaustively (with DLM COMMA/TAB, comment runs, run-on negatives, date / text / empty / quoted columns, Ctrl-Z markers, null policies), "
+            "larger shapes generated; curves must be rectangular, in order, surplus columns appended, missing ones NaN",
             "every data line carries the same number of values; wrapped files declare exactly their curves"),
     "C08": ("exhaustive string enumeration against an independent literal classifier + Hypothesis near-literals",
             "all strings of length <= 5 (quick) / <= 6 (thorough) over an 18-symbol alphabet are converted and compared with a "
@@ -47,7 +49,8 @@ META = {
             "no noise inside ~Other; wrapped files use the SPACE delimiter; numeric tokens only"),
     "C10": ("channel/encoding differential + history-based purity invariants, Hypothesis",
             "the same text through 5 channels x 7 encodings x 3 line ends must give the StringIO reading and the expected reading; "
-            "operation histories (reads, mutations, writes, LASFile()) must leave re-reads, untouched results and fresh defaults unchanged",
+            "operation histories (reads, mutations, writes, LASFile(), a path rewritten with other encodings, option objects reused) must leave re-reads, untouched "
+            "results and fresh defaults unchanged; files that exercise module-level tables are compared with fixed expectations",
             "autodetection claimed for the UTF-8 BOM only; CR line ends for files only"),
     "C11": ("fixed-point oracle over repeated read->write cycles, corpus enumeration + Hypothesis",
             "for corpus files, generated LASFiles and generated texts: cycles 2..4 of write/read must reproduce the canonical content of the first re-read exactly",
@@ -57,7 +60,8 @@ META = {
             "items whose value/description contains ':' are not compared across versions (ambiguous in the 1.2 format); D41/D44 sources excluded"),
     "C13": ("model-based testing (documented numbering rule), exhaustive operation sequences + Hypothesis histories + file round trips",
             "all operation sequences up to length 4 (quick) over a 6-name alphabet x case modes are checked after every step against the "
-            "documented naming model: uniqueness, resolution by item/attribute/LASFile[...], originals preserved; file-level multisets re-read under the three mnemonic_case modes",
+            "documented naming model (append, insert, delete, replace by key / position, get(add=True), move, set_data): uniqueness, resolution by item/attribute/LASFile[...], "
+            "originals preserved; file-level multisets re-read under the three mnemonic_case modes",
             "after deletions stale suffixes are what the documented rule yields; open finding D23 (literal ':n' names) reported, not fatal"),
     "C14": ("model-based stateful testing (ordered-list model), Hypothesis rule-based machines + exhaustive short histories",
             "every curve-editing operation is applied to lasio and to a plain list model; after each step keys/values/items/index/data/int and name indexing must agree and the other LASFile of a pair must be unchanged",
@@ -78,7 +82,8 @@ META = {
             "five sub-oracles parse each export with an independent reader and compare every header value and sample with the LASFile; unit spellings in any case for depth views",
             "Cyrillic spellings only as listed; sections with non-unique session names skipped in json/df views"),
     "C19": ("fault injection of junk lines with subsequence/non-interference oracle, Hypothesis over generated and example files",
-            "1..5 junk lines (random and adversarial) at any position of ~V/~W/~P/custom: with the flag no exception, warnings for skipped lines, genuine items an unchanged ordered subsequence, data identical; without the flag only LASHeaderError naming the line",
+            "1..5 junk lines (random and adversarial) at any position of ~V/~W/~P/custom: with the flag no exception, one warning per skipped line (with its line number), genuine items an "
+            "unchanged ordered subsequence with at most as many additional items as junk lines, data identical; without the flag only LASHeaderError naming the line and its number",
             "steering names and '~' lines excluded (counted); must-warn set taken narrowly (neither '.' nor ':')"),
     "C20": ("exhaustive fault enumeration over every low-level I/O operation and every open() of a clean run",
             "for each (call kind, input) a clean run under an open()/io.open() tracker measures the operation count N; every k in 1..N and every open j is then run with an injected OSError; "
